@@ -305,12 +305,35 @@ def ref_or(tr, t):
     return numpy.asarray(t.matrix, dtype=numpy.float64) if R is None else R
 
 
+class CaseTimeout(BaseException):
+    pass
+
+
+def _alarm(signum, frame):
+    raise CaseTimeout()
+
+
 def main():
+    import signal
     payload = json.load(sys.stdin)
+    per_case = int(payload.get('per_case_timeout', 4))
+    hung = 0
+    signal.signal(signal.SIGALRM, _alarm)
     out = []
     for case in payload['cases']:
+        if hung >= 3:        # do not sit out the timeout on every remaining case
+            out.append({'obs': None, 'fails': [{'clause': 'not-run', 'site': 'worker', 'detail': 'skipped after 3 hung cases in this batch'}]})
+            continue
         try:
-            out.append(run_case(case))
+            signal.alarm(per_case)      # a Python-level hang becomes this case's failure, not the batch's
+            try:
+                out.append(run_case(case))
+            finally:
+                signal.alarm(0)
+        except CaseTimeout:
+            hung += 1
+            out.append({'obs': None, 'fails': [{'clause': 'crash-or-hang', 'site': 'loaded' if case.get('mode') == 'L' else 'constructed',
+                                                'detail': 'no result after %d s' % per_case}]})
         except Exception as e:  # noqa: one failing case must not take the batch down
             out.append({'obs': None, 'fails': [{'clause': 'raises', 'site': 'loaded' if case.get('mode') == 'L' else 'constructed',
                                                 'detail': '%s: %s' % (type(e).__name__, e)}]})
